@@ -17,9 +17,11 @@ type c08Spec struct {
 	Deriv string `json:"deriv"` // identical | rename-all | dup3 | swap | edits | mixed
 	K     int    `json:"k"`
 	Big   bool   `json:"big"`
+	// StoredSig: the old signature is read back from the stream an earlier WritePatch wrote
+	StoredSig bool `json:"storedSig"`
 }
 
-var c08Derivs = []string{"identical", "rename-all", "dup3", "swap", "overwrite-with-copy", "edits", "edits", "edits", "mixed"}
+var c08Derivs = []string{"identical", "rename-all", "dup3", "swap", "overwrite-with-copy", "edits", "edits", "edits", "mixed", "edits-at-wrap"}
 
 func c08Cases(tier string, seed uint64, flavor string) []lib.Case {
 	n := 400
@@ -28,7 +30,7 @@ func c08Cases(tier string, seed uint64, flavor string) []lib.Case {
 	}
 	var cases []lib.Case
 	for i := 0; i < n; i++ {
-		s := c08Spec{Seed: lib.Mix(seed, 8, uint64(i)), Deriv: c08Derivs[i%len(c08Derivs)], K: 1 + i%4, Big: i%25 == 24}
+		s := c08Spec{Seed: lib.Mix(seed, 8, uint64(i)), Deriv: c08Derivs[i%len(c08Derivs)], K: 1 + i%4, Big: i%25 == 24, StoredSig: (i/len(c08Derivs))%2 == 1}
 		cases = append(cases, lib.Case{Seed: s.Seed, Kind: s.Deriv, Spec: lib.MustSpec(s)})
 	}
 	if tier == "thorough" {
@@ -65,6 +67,10 @@ func c08Run(c lib.Case, env *lib.Env) lib.Result {
 			sz = 40*lib.MB + 12345
 			nfiles = 1
 		}
+		if s.Deriv == "edits-at-wrap" {
+			sz = int64(r.Range(70, 140))*lib.BS + int64(r.Intn(lib.BS))
+			nfiles = 1
+		}
 		d := lib.RandomBytes(sz, r.Uint64()) // the edit bound is stated for high-entropy content only
 		if !strings.HasPrefix(s.Deriv, "edits") && s.Deriv != "mixed" {
 			// the "already present => nothing fresh" clauses hold for ANY content: zero files, zero blocks inside
@@ -98,7 +104,7 @@ func c08Run(c lib.Case, env *lib.Env) lib.Result {
 		path := fmt.Sprintf("%sf%d.bin", []string{"", "d/", "d/e/"}[r.Intn(3)], i)
 		old.PutFile(path, d)
 		olds = append(olds, of{path, d})
-		if s.Deriv == "edits-40M" {
+		if s.Deriv == "edits-40M" || s.Deriv == "edits-at-wrap" {
 			break
 		}
 	}
@@ -152,6 +158,30 @@ func c08Run(c lib.Case, env *lib.Env) lib.Result {
 		for _, f := range olds {
 			edit(f, s.K)
 		}
+	case "edits-at-wrap":
+		// one small edit placed where the differ's 66-block working buffer wraps (blocks 64, 65, 131): the differ is
+		// rolling byte by byte right there
+		f := olds[0]
+		nd := append([]byte(nil), f.data...)
+		blk := int64(r.PickInt([]int{64, 65, 65, 65, 131}))
+		if (blk+1)*lib.BS >= int64(len(nd)) {
+			blk = 65
+		}
+		off := blk*lib.BS + int64(r.Intn(lib.BS-600))
+		var intro int64
+		switch r.Intn(3) {
+		case 0:
+			lib.FillRandom(nd[off:off+500], r.Uint64())
+			intro = 500
+		case 1:
+			ins := lib.RandomBytes(int64(r.Range(1, 700)), r.Uint64())
+			nd = append(nd[:off:off], append(ins, nd[off:]...)...)
+			intro = int64(len(ins))
+		default:
+			nd = append(nd[:off:off], nd[off+int64(r.Range(1, 700)):]...)
+		}
+		nw.PutFile(f.path, nd)
+		edits = append(edits, c08Edit{f.path, f.path, intro, 1})
 	default: // mixed
 		for i, f := range olds {
 			switch i % 3 {
@@ -170,7 +200,9 @@ func c08Run(c lib.Case, env *lib.Env) lib.Result {
 	oldDir, newDir := filepath.Join(env.Scratch, "old"), filepath.Join(env.Scratch, "new")
 	old.Materialize(oldDir)
 	nw.Materialize(newDir)
+	lib.StoredOldSig = s.StoredSig
 	dr, err := lib.DiffDirs(oldDir, newDir, lib.Comp{Algo: "none"}, nil, nil, nil)
+	lib.StoredOldSig = false
 	if err != nil {
 		res.Violate("diff-error", err.Error())
 		return res
@@ -235,7 +267,10 @@ func c08Run(c lib.Case, env *lib.Env) lib.Result {
 		}
 		_ = margin
 	}
-	res.Feat = []string{fmt.Sprintf("%s|k=%d|files=%d|big=%v", s.Deriv, s.K, len(olds), s.Big)}
+	res.Feat = []string{fmt.Sprintf("%s|k=%d|files=%d|big=%v|storedsig=%v", s.Deriv, s.K, len(olds), s.Big, s.StoredSig)}
+	if s.StoredSig {
+		res.Add("diffs_against_a_stored_signature", 1)
+	}
 	if c.ID%23 == 0 {
 		res.Sample = map[string]interface{}{"seed": s.Seed, "derivation": s.Deriv, "k": s.K, "files": len(olds), "newBytes": totalNew, "fresh": totalFresh, "reused": totalReused, "editedFiles": len(edits)}
 	}
